@@ -175,6 +175,23 @@ def _post(self, args, kwargs, result, exc, token):
     got_blocks = [[_canon(x) for x in b] if isinstance(b, list) else _canon(b) for b in _blocks(self)]
     if got_blocks != want_blocks or self.group_by != snap["group_by"]:
         FOUND.append({"what": "grouping of the remaining items changed", "detail": {"got": got_blocks, "want": want_blocks}})
+    # the same clause from what was observed before the call alone (not through the object's own group_by attribute):
+    # the blocks as they stood, minus the removed entries
+    pos_blocks, n_flat = [], 0
+    for blk in snap["blocks"]:
+        if isinstance(blk, list):
+            keep = [_canon(ln) for k, ln in enumerate(blk) if n_flat + k not in removed]
+            n_flat += len(blk)
+            if keep:
+                pos_blocks.append(keep)
+        else:
+            if n_flat not in removed:
+                pos_blocks.append(_canon(blk))
+            n_flat += 1
+    _bump("observed_block_structure_compared")
+    if got_blocks != pos_blocks:
+        FOUND.append({"what": "grouping of the remaining items changed (blocks as observed before the call, minus the removed entries)",
+                      "detail": {"got": got_blocks, "want": pos_blocks, "group_by_attribute": self.group_by}})
     # (ii) cover witness for every removed ACE
     rules_before = [it["m"] for it in old if it["ace"]]
     for idx in removed:
@@ -251,6 +268,13 @@ def execute(ctx, case: dict) -> None:
     acl = Acl(case["text"], platform=case["platform"], max_ncwb=20, group_by=case.get("group_by", ""), **case.get("kwargs", {}))
     attach_members(acl, case.get("members", {}))
     skip = case.get("skip")
+    if case.get("regroup") is not None:
+        # history: the ACL is regrouped by another prefix (or ungrouped) before the removal
+        try:
+            acl.group(case["regroup"]) if case["regroup"] else acl.ungroup()
+            ctx.count("regrouped_before_delete")
+        except (ValueError, TypeError):
+            pass
     if case.get("pre_query"):
         # history: ask for the report first, change group members in place, then delete (a remembered report would be stale)
         try:
@@ -287,6 +311,9 @@ def gen_case(rng, platform):
     small = sc.SMALL if rng.random() < 0.85 else None
     groups = rng.random() < 0.4
     heading = rng.choice(["", "", "= ", "## "])
+    heading2 = rng.choice([None, None, None, "-- ", "= ", ""])  # regroup by this one before the removal
+    if heading2 == heading:
+        heading2 = None
     numbered = rng.random() < 0.4
     shuffled_numbers = numbered and rng.random() < 0.3
     lines = []
@@ -298,7 +325,10 @@ def gen_case(rng, platform):
         if numbered:
             seq = seq + rng.choice([1, 5, 10]) if not shuffled_numbers else rng.randint(1, 5000)
         if rng.random() < 0.18:
-            lines.append(grammar.gen_remark(rng, seq=seq, heading=heading if heading and rng.random() < 0.6 else None,
+            head = heading if heading and rng.random() < 0.6 else None
+            if heading2 and rng.random() < 0.4:
+                head = heading2
+            lines.append(grammar.gen_remark(rng, seq=seq, heading=head,
                                             uniq=f"u{len(lines)}" if rng.random() < 0.9 else "")["text"])
             continue
         roll = rng.random()
@@ -326,6 +356,8 @@ def gen_case(rng, platform):
     text = grammar.acl_header(platform, "DS") + "\n" + "\n".join("  " + ln for ln in lines)
     case = {"platform": platform, "text": text, "members": members, "group_by": heading,
             "skip": rng.choice([None, None, None, [], ["addrgroup"], ["nc_wildcard"], ["addrgroup", "nc_wildcard"]])}
+    if heading2 is not None:
+        case["regroup"] = heading2
     if rng.random() < 0.3:
         case["kwargs"] = {"port_nr": rng.random() < 0.5, "protocol_nr": rng.random() < 0.7}
     if members and rng.random() < 0.5:
